@@ -141,7 +141,16 @@ def check(case):
         require(set(vars(c)) == set(vars(fresh)), "clone:fitted-state-leaks", "clone of a fitted instance carries %r" % sorted(set(vars(c)) - set(vars(fresh))), facts)
         require(R.params_image(c) == R.params_image(fresh), "clone:params-differ-after-fit", _diff(R.params_image(c), R.params_image(fresh)), facts)
 
-    # ---- history
+    # ---- history (in half of the cases both instances have already been trained once: what a fit leaves behind must not outlive a
+    # reconfiguration followed by another fit - checked by the instance-versus-clone comparison below)
+    if entry is not None and data is not None and case["seed"] % 2 == 0:
+        for x in (a, b):
+            try:
+                np.random.seed(case["seed"] + 5)
+                entry.fit(x, *R.materialize(data))
+            except Exception:  # noqa: BLE001 - a configuration the data does not suit
+                pass
+        labels.add("trained-before-the-updates")
     for op in case["ops"]:
         kind = op[0]
         x, other = (a, b) if op[1] == 0 else (b, a)
